@@ -31,7 +31,7 @@ Definition json_of_children (ch : list (string * list bindings)) : json :=
 
 (** Canonical form of an observed result (sets are sorted the same way). *)
 Definition canon_obs (o : json) : json :=
-  let o := JObj (aremove "msg" (jO (jnorm o))) in
+  let o := JObj (aremove "fired" (aremove "msg" (jO (jnorm o)))) in
   let fix_list k (j : json) :=
     match jget k j with
     | Some (JArr l) =>
@@ -82,7 +82,20 @@ Definition dec_op (o : json) : option lop :=
   else None.
 
 (** Render a typed result as the canonical observable. *)
-Definition render (op : lop) (r : lres) : json :=
+Definition json_of_found_local (sy : system) (found : list (string * list (string * list bindings))) : json :=
+  JArr (canon_multiset
+          (flat_map (fun g =>
+                       map (fun r => JObj [("bss", json_of_bss (snd r));
+                                           ("fact", match sys_get sy (fst g) with
+                                                    | Some l => match alookup (fst r) (st_facts (l_state l)) with
+                                                                | Some f => f
+                                                                | None => JNull
+                                                                end
+                                                    | None => JNull
+                                                    end);
+                                           ("id", JStr (fst r)); ("loc", JStr (fst g))]) (snd g)) found)).
+
+Definition render (sy : system) (op : lop) (r : lres) : json :=
   match r with
   | RId o => (match op with LSetParents _ => res_of o (fun _ => []) | _ => res_of o (fun i => [("id", JStr i)]) end)
   | RBool o => res_of o (fun _ => [])
@@ -92,7 +105,8 @@ Definition render (op : lop) (r : lres) : json :=
   | RSize o => res_of o (fun n => [("n", JNum n)])
   | RFound o =>
       let inh := match op with LSearch _ i => i | _ => false end in
-      res_of o (fun f => [("found", json_of_found (if inh then map (fun g => ("", snd g)) f else f))])
+      res_of o (fun f => [("found", if inh then json_of_found (map (fun g => ("", snd g)) f)
+                                     else json_of_found_local sy f)])
   | RChildren o =>
       (* event errors are only visible as disposition messages *)
       let o' := match o with
@@ -145,7 +159,7 @@ Definition run_op (sy : system) (o : json) (now : Z) : system * json :=
   | None => (sy, JObj [("class", JStr "unknown-op"); ("ok", JBool false)])
   | Some op =>
       let '(sy', r) := sys_step sy (jfS "loc" o) (dec_ctx o) (dec_env o now) op in
-      (sy', render op r)
+      (sy', render sy' op r)
   end.
 
 Definition sys_amb (sy : system) : bool := existsb (fun kv => st_amb (l_state (snd kv))) sy.
@@ -157,6 +171,24 @@ Definition as_linear (sy : system) : system :=
                  (fst kv, upd_state (snd kv)
                             (mkState Linear (st_facts s) (st_tindex s) (st_pindex s) (st_store s)
                                      (st_hooks s) (st_calls s) (st_fail s) false))) sy.
+
+Definition any_expired_l (l : loc) (now : Z) : bool :=
+  existsb (fun kv => fact_expired (snd kv) now) (st_facts (l_state l)).
+
+Definition is_mutating_op (op : string) : bool :=
+  String.eqb op "addfact" || String.eqb op "addrule" || String.eqb op "remfact" || String.eqb op "remrule" ||
+  String.eqb op "clear" || String.eqb op "enablerule" || String.eqb op "setparents".
+
+Definition is_api_op (op : string) : bool :=
+  is_mutating_op op || String.eqb op "getfact" || String.eqb op "getrule" || String.eqb op "getparents" ||
+  String.eqb op "size" || String.eqb op "search" || String.eqb op "event" || String.eqb op "query" ||
+  String.eqb op "process".
+
+Definition loc_disabled (sy : system) (name : string) (now : Z) : bool :=
+  match sys_get sy name with
+  | Some l => negb (any_expired_l l now) && negb (snd (enabled l now))
+  | None => false
+  end.
 
 Definition is_read_op (op : string) : bool :=
   String.eqb op "search" || String.eqb op "event" || String.eqb op "getfact" || String.eqb op "getrule" ||
@@ -175,6 +207,20 @@ Definition rules_have_propvar (sy : system) : bool :=
                                         | Some r => match rule_patterns r with
                                                     | Some p => has_propvar p
                                                     | None => false
+                                                    end
+                                        | None => false
+                                        end) (st_facts (l_state (snd kv)))) sy.
+
+(** D30: a stored rule whose `when` has no "pattern" member (indexed under the
+    whole `when` map, re-matched against the empty pattern). *)
+Definition rules_have_direct_when (sy : system) : bool :=
+  existsb (fun kv => existsb (fun f => match jget "rule" (snd f) with
+                                        | Some r => match jget "when" r with
+                                                    | Some (JObj w) => match alookup "pattern" w with
+                                                                       | Some _ => false
+                                                                       | None => true
+                                                                       end
+                                                    | _ => false
                                                     end
                                         | None => false
                                         end) (st_facts (l_state (snd kv)))) sy.
@@ -285,6 +331,7 @@ Definition kf_of (sy : system) (o : json) : list string :=
      (if has_propvar p then ["D9"] else []))%list
   else if String.eqb op "event" || String.eqb op "process" then
     ((if rules_have_propvar sy then ["D6"] else []) ++
+     (if rules_have_direct_when sy then ["D30"] else []) ++
      (if event_risky (jnorm (jget_d "event" o)) then ["D7"] else []))%list
   else [].
 
@@ -348,6 +395,9 @@ Definition judge_removal (sy0 sy' : system) (o : json) (now : Z) : bool * list s
   | Some l0, Some l1 =>
       let s0 := l_state l0 in
       if any_expired s0 now then (false, [])
+      else if negb (list_eqb String.eqb (map fst (st_facts s0)) (map fst (st_store s0))) then (false, [])
+           (* memory and storage already differ: an earlier operation of this instance was hit by an
+              injected storage failure and reported it *)
       else
         let id := jfS "id" o in
         let expected := spec_remaining (st_facts s0) id in
@@ -356,6 +406,24 @@ Definition judge_removal (sy0 sy' : system) (o : json) (now : Z) : bool * list s
         if list_eqb String.eqb expected got && list_eqb String.eqb expected got_store then (false, [])
         else (true, if is_var id || existsb (fun kv => is_var (fst kv)) (st_facts s0) then ["D14"] else [])
   | _, _ => (false, [])
+  end.
+
+(** C06: a location rebuilt from its storage is the live location, after any
+    history in which no storage call failed (and nothing is expired). *)
+Definition failure_happened (s : state) : bool :=
+  match st_fail s with Some n => (n <? st_calls s)%nat | None => false end.
+
+Definition facts_eqb (a b : list (string * json)) : bool :=
+  list_eqb (fun x y => String.eqb (fst x) (fst y) && json_eqb (snd x) (snd y)) a b.
+
+Definition judge_reload (sy0 sy' : system) (o : json) (now : Z) : bool :=
+  let name := jfS "loc" o in
+  match sys_get sy0 name, sys_get sy' name with
+  | Some l0, Some l1 =>
+      let s0 := l_state l0 in
+      if any_expired s0 now || failure_happened s0 then false
+      else negb (facts_eqb (st_facts s0) (st_facts (l_state l1)) && facts_eqb (st_store s0) (st_store (l_state l1)))
+  | _, _ => false
   end.
 
 Record acc := mkAcc {
@@ -408,8 +476,16 @@ Definition step_acc (a : acc) (o : json) : acc :=
       | Some (sy', m, amb) =>
           (* judge reads against the index-free specification *)
           let '(spec_bad, kfs) :=
-            if (String.eqb (jfS "op" o) "remfact" || String.eqb (jfS "op" o) "remrule") && negb amb && jfB "ok" m
+            if loc_disabled sy0 (jfS "loc" o) t && negb amb && is_api_op (jfS "op" o)
+            then (jfB "ok" obs, if String.eqb (jfS "op" o) "size" then ["D36"] else [])
+                 (* C10: in a disabled location every operation reports an error *)
+            else if (String.eqb (jfS "op" o) "remfact" || String.eqb (jfS "op" o) "remrule") && negb amb && jfB "ok" m
             then judge_removal sy0 sy' o t
+            else if String.eqb (jfS "op" o) "reload" && negb amb && jfB "ok" m
+            then (judge_reload sy0 sy' o t, [])
+            else if jfB "fired" obs && jfB "ok" obs && is_mutating_op (jfS "op" o) && negb amb &&
+                    negb (existsb (fun kv => any_expired (l_state (snd kv)) t) sy0)
+            then (true, [])   (* the storage reported a failure and the operation reported success *)
             else if is_read_op (jfS "op" o) && negb amb then
               let spec_res now :=
                 if String.eqb (jfS "op" o) "query" then spec_query sy0 o now
@@ -433,8 +509,9 @@ Definition step_acc (a : acc) (o : json) : acc :=
 Definition init_system (locs : list json) : system :=
   fold_left (fun sy l =>
                ainsert (jfS "name" l)
-                       (mkLoc (empty_state (if String.eqb (jfS "kind" l) "linear" then Linear else Indexed)
-                                           (jfB "hooks" l))
+                       (mkLoc (set_fail (empty_state (if String.eqb (jfS "kind" l) "linear" then Linear else Indexed)
+                                                     (jfB "hooks" l))
+                                        (match jget "fail" l with Some (JNum z) => Some (Z.to_nat z) | _ => None end))
                               false (match jget "max" l with Some (JNum z) => z | _ => 1000 end)) sy)
             locs [].
 
@@ -448,7 +525,7 @@ Definition check_loc (c : json) : json :=
         ("model", match a_diff a with Some (_, _, m) => m | None => JNull end);
         ("spec_ok", JBool (match a_spec a, kf with None, [] => true | _, _ => false end));
         ("spec_why", JStr (match a_spec a with
-                           | Some (_, w) => String.append "read differs from the index-free specification at op " w
+                           | Some (_, w) => String.append "observed behaviour fails the specification (index-free search, denotational query semantics, deleteWith closure, reload equivalence, failure reporting) at op " w
                            | None => match kf with [] => "" | _ => "known finding" end
                            end));
         ("spec_at", match a_spec a with Some (k, _) => JNum k | None => JNull end);
